@@ -108,9 +108,9 @@ func verifCLICheck(a, b JsonNode, fi int) string {
 		s, err := d.RenderMerge()
 		want, wantErr = s, err != nil
 	}
-	empty := map[string]string{"jd": "", "patch": "[]", "merge": "{}"}[fs.format]
+	// exit status 0 exactly when the two inputs are equal under the flags given (C05, C14)
 	wantExit := 1
-	if want == empty {
+	if a.Equals(b, verifEqualOptions(fs.opts)...) {
 		wantExit = 0
 	}
 	if wantErr {
